@@ -1,3 +1,4 @@
+import WV.Gen.Flags
 import WV.Proofs.C04
 import WV.Proofs.C04_Net
 
@@ -42,6 +43,15 @@ theorem body_skeletons :
   decide
 
 theorem chunk_size_pos : 0 < Gen.Consts.FILESENDER_CHUNK_SIZE := by decide
+
+/-- the offer / answer / ack codec (`util.dict_to_bytes`, `util.bytes_to_dict`) is plain
+    `json.dumps(d).encode("utf-8")` / `json.loads(b.decode("utf-8"))`: no `to_bytes` / `unicodedata`
+    in either (which would NFC-normalise the text message, the file name and the directory name on
+    their way to the receiver), no keyword argument to `json.dumps` / `json.loads`.  The codec itself
+    stays an interface (`AckCodec`; json is trusted), this is the obligation that it is still that codec. -/
+theorem dict_codec_does_not_normalise :
+    Gen.Flags.dict_codec_normalises = false ∧ Gen.Flags.dict_to_bytes_plain_json_dumps = true ∧
+    Gen.Flags.bytes_to_dict_plain_json_loads = true := by decide
 
 /-! ## the sender -/
 
